@@ -417,7 +417,11 @@ func writeEvidence(spec *CheckSpec, tier string, seed int, results []*EntryResul
 		"wall_s":      wall,
 		"violations":  len(viol),
 	}
-	os.MkdirAll(filepath.Join(verifRoot, "evidence"), 0o755)
+	dir := filepath.Join(verifRoot, "evidence")
+	if d := os.Getenv("VERIF_EVIDENCE_DIR"); d != "" {
+		dir = d // used when running against mutants, so that committed evidence is not overwritten
+	}
+	os.MkdirAll(dir, 0o755)
 	b, _ := json.MarshalIndent(ev, "", " ")
-	os.WriteFile(filepath.Join(verifRoot, "evidence", spec.Property+".json"), b, 0o644)
+	os.WriteFile(filepath.Join(dir, spec.Property+".json"), b, 0o644)
 }
